@@ -181,6 +181,14 @@ Qed.
 
 Ltac keyed F := let x := fresh "x" in let Hx := fresh "Hx" in intros x Hx; specialize (F x Hx); unfold enc_app, enc_dev, enc_gw, enc_up, enc_down, enc_nonce; pcbn.
 
+Lemma keyeq_key a b : key_ok a = true -> key_ok b = true -> bytes_eqb (key_str a) (key_str b) = bytes_eqb a b.
+Proof.
+  intros Ha Hb. apply key_ok_spec in Ha, Hb. destruct Ha as [A1 A2], Hb as [B1 B2].
+  destruct (bytes_eqb a b) eqn:E.
+  - apply bytes_eqb_spec in E. subst. now apply bytes_eqb_spec.
+  - destruct (bytes_eqb (key_str a) (key_str b)) eqn:E2; [|reflexivity]. apply bytes_eqb_spec in E2.
+    apply key_str_inj in E2; auto. subst. rewrite (proj2 (bytes_eqb_spec b b) eq_refl) in E. discriminate.
+Qed.
 Theorem refine_step s o : store_ok s -> regop_ok o = true ->
   c_step (enc_store s) o = (enc_store (fst (a_step s o)), snd (a_step s o)) /\ store_ok (fst (a_step s o)).
 Proof.
@@ -368,29 +376,35 @@ Proof.
     cbn. now split.
   - (* AdvanceFCntUp *)
     pose proof Fd as F. rewrite Forall_forall in F.
-    apply andb_true_iff in Ho. destruct Ho as [Ho Hnf]. apply andb_true_iff in Ho. destruct Ho as [Ho Ha].
+    apply andb_true_iff in Ho. destruct Ho as [Ho Hnf]. apply andb_true_iff in Ho. destruct Ho as [Ho Ha]. apply andb_true_iff in Ho. destruct Ho as [Ho Hkey].
     cbn [enc_store t_devs].
     assert (K : forall x, In x (a_devs s) ->
-              ((cd_eui (enc_dev x) =? eui_to_int64 e)%Z && (cd_fup (enc_dev x) <=? accepted)) = ((rd_eui x =? e) && (rd_fup x <=? accepted))).
-    { intros x Hx. f_equal. revert x Hx. keyed F. apply zeq_eui; [|exact Ho]. now apply dev_ok_eui. }
-    rewrite (ex_key enc_dev _ (fun x => (rd_eui x =? e) && (rd_fup x <=? accepted))) by exact K.
+              ((cd_eui (enc_dev x) =? eui_to_int64 e)%Z && (cd_fup (enc_dev x) <=? accepted) && bytes_eqb (cd_nwkskey (enc_dev x)) (key_str key))
+              = ((rd_eui x =? e) && (rd_fup x <=? accepted) && bytes_eqb (rd_nwkskey x) key)).
+    { intros x Hx. f_equal; [f_equal|].
+      - revert x Hx. keyed F. apply zeq_eui; [|exact Ho]. now apply dev_ok_eui.
+      - apply keyeq_key; [|exact Hkey]. specialize (F x Hx). apply dev_ok_spec in F. tauto. }
+    rewrite (ex_key enc_dev _ (fun x => (rd_eui x =? e) && (rd_fup x <=? accepted) && bytes_eqb (rd_nwkskey x) key)) by exact K.
     destruct (existsb _ (a_devs s)); cbn [fst snd]; [|now split]. split.
     + unfold st_devs, enc_store. cbn. f_equal. f_equal. apply (map_key enc_dev). intros x Hx. rewrite K by exact Hx.
-      destruct ((rd_eui x =? e) && (rd_fup x <=? accepted)); reflexivity.
+      destruct ((rd_eui x =? e) && (rd_fup x <=? accepted) && bytes_eqb (rd_nwkskey x) key); reflexivity.
     + split; cbn; try assumption. apply Forall_map_if; [exact Fd|]. intros x Hx.
       apply dev_ok_spec in Hx. apply dev_ok_spec. unfold upd_dev_state. cbn. apply N.ltb_lt in Hnf. tauto.
   - (* NextFCntDn *)
-    pose proof Fd as F. rewrite Forall_forall in F.
+    pose proof Fd as F. rewrite Forall_forall in F. apply andb_true_iff in Ho. destruct Ho as [Ho Hkey].
     change (t_devs (enc_store s)) with (map enc_dev (a_devs s)).
-    assert (K : forall x, In x (a_devs s) -> (cd_eui (enc_dev x) =? eui_to_int64 e)%Z = (rd_eui x =? e)).
-    { keyed F. apply zeq_eui; [|exact Ho]. now apply dev_ok_eui. }
-    rewrite (find_key enc_dev _ (fun x => rd_eui x =? e)) by exact K.
+    assert (K : forall x, In x (a_devs s) ->
+              ((cd_eui (enc_dev x) =? eui_to_int64 e)%Z && bytes_eqb (cd_nwkskey (enc_dev x)) (key_str key)) = ((rd_eui x =? e) && bytes_eqb (rd_nwkskey x) key)).
+    { intros x Hx. f_equal.
+      - revert x Hx. keyed F. apply zeq_eui; [|exact Ho]. now apply dev_ok_eui.
+      - apply keyeq_key; [|exact Hkey]. specialize (F x Hx). apply dev_ok_spec in F. tauto. }
+    rewrite (find_key enc_dev _ (fun x => (rd_eui x =? e) && bytes_eqb (rd_nwkskey x) key)) by exact K.
     destruct (find _ (a_devs s)) as [d|] eqn:E; cbn [option_map fst snd]; [|now split].
     apply find_some in E. destruct E as [E _]. pose proof (F d E) as Hd. apply dev_ok_spec in Hd.
     split.
     + f_equal.
       * unfold st_devs, enc_store. cbn. f_equal. f_equal. apply (map_key enc_dev). intros x Hx. rewrite K by exact Hx.
-        destruct (rd_eui x =? e); reflexivity.
+        destruct ((rd_eui x =? e) && bytes_eqb (rd_nwkskey x) key); reflexivity.
       * f_equal. unfold enc_dev. cbn [cd_fdn]. destruct Hd as (_ & _ & _ & _ & _ & _ & _ & _ & Hfd & _).
         assert (H1 : rd_fdn d < 65536) by exact Hfd. clear - H1. lia.
     + split; cbn; try assumption. apply Forall_map_if; [exact Fd|]. intros x Hx.
